@@ -22,7 +22,7 @@ def one(d, own):
     tmp = Path(tempfile.mkdtemp(prefix="cg_refactor_"))
     try:
         # the committed tree (not the working tree: tools/seeded_run.py patches that transiently and may run at the same time)
-        subprocess.run(f"git -C /repo archive HEAD circuitgraph | tar -x -C {tmp}", shell=True, check=True)
+        subprocess.run(f"git -C /repo archive HEAD circuitgraph setup.py | tar -x -C {tmp}", shell=True, check=True)
         p = subprocess.run(["git", "apply", str(d / "patch.diff")], cwd=tmp, capture_output=True, text=True)
         if p.returncode != 0:
             return d.name, {"apply": p.stderr[:200]}
